@@ -24,6 +24,7 @@ import (
 
 	"github.com/free5gc/go-gtp5gnl"
 	"github.com/free5gc/go-upf/internal/forwarder/buffnetlink"
+	"github.com/free5gc/go-upf/internal/forwarder/perio"
 	"github.com/free5gc/go-upf/internal/report"
 )
 
@@ -207,6 +208,26 @@ func TestVerifReplay(t *testing.T) {
 		if got != 2 {
 			fmt.Println("REPLAY-CONFIRMED farid: the buffered packets of the FAR named by the IE are not released when its Apply Action child precedes its FAR ID child (applyAction was called with FAR id 0)")
 		}
+	case strings.Contains(m.Obligation, "URR#at{append}.period"):
+		// Create/Update URR with a Measurement Period of 10 s: the attribute handed to gtp5g must be 10
+		upd := strings.Contains(m.Obligation, "UpdateURR")
+		urr := ie.NewCreateURR(ie.NewURRID(1), ie.NewMeasurementMethod(0, 1, 0), ie.NewReportingTriggers(0, 0, 0), ie.NewMeasurementPeriod(10*time.Second))
+		if upd {
+			urr = ie.NewUpdateURR(ie.NewURRID(1), ie.NewMeasurementPeriod(10*time.Second))
+		}
+		got, ok := verifURRPeriod(t, urr, upd)
+		fmt.Printf("Measurement Period IE 10 s: attribute URR_MEASUREMENT_PERIOD sent to gtp5g = %d (found %v)\n", got, ok)
+		if ok && got != 10 {
+			fmt.Println("REPLAY-CONFIRMED period: the measurement period handed to the data plane is the low 32 bits of the duration in nanoseconds, not the IE's number of seconds")
+		}
+	case strings.Contains(m.Obligation, "UpdateURR#perio"):
+		// URR 1 is created without the periodic trigger; an Update URR then sets PERIO with a 1 s period: from then on the
+		// periodic-report server must query URR 1 of session 1 on every tick
+		n := verifPerioAfterUpdate(t)
+		fmt.Printf("Update URR {PERIO, period 1s}: periodic queries for the URR within 2.5 s: %d\n", n)
+		if n == 0 {
+			fmt.Println("REPLAY-CONFIRMED perio: a URR given the periodic trigger by Update URR is never registered for periodic querying")
+		}
 	case strings.Contains(m.Obligation, "BAR#at{append}.delay"):
 		// Create/Update BAR with a Downlink Data Notification Delay of 3 x 50 ms: the attribute handed to gtp5g must be 3
 		bar := ie.NewCreateBAR(ie.NewBARID(1), ie.NewDownlinkDataNotificationDelay(150*time.Millisecond))
@@ -222,6 +243,108 @@ func TestVerifReplay(t *testing.T) {
 	default:
 		fmt.Println("no replay case for", m.Obligation)
 	}
+}
+
+// verifSim: a Gtp5g wired to the simulated kernel; cleanup must be called.
+func verifSim(t *testing.T) (*Gtp5g, *demoKernel, func()) {
+	fds, err := syscall.Socketpair(syscall.AF_UNIX, syscall.SOCK_DGRAM, 0)
+	if err != nil {
+		t.Fatal(err)
+	}
+	kernel := &demoKernel{fd: fds[1]}
+	go kernel.serve()
+	mux, err := nl.NewMux()
+	if err != nil {
+		t.Fatal(err)
+	}
+	muxDone := make(chan struct{})
+	go func() {
+		_ = mux.Serve()
+		close(muxDone)
+	}()
+	conn := &demoConn{fd: fds[0]}
+	g := &Gtp5g{
+		log:    logrus.WithField("replay", "forwarder"),
+		mux:    mux,
+		client: &gtp5gnl.Client{Client: nl.NewClient(conn, mux), ID: 30},
+		link:   &Gtp5gLink{link: &gtp5gnl.Link{Name: "upfgtp", Index: 7}},
+	}
+	return g, kernel, func() {
+		mux.Close()
+		<-muxDone
+		syscall.Close(fds[0])
+		syscall.Close(fds[1])
+	}
+}
+
+func verifURRPeriod(t *testing.T, req *ie.IE, update bool) (uint32, bool) {
+	g, kernel, done := verifSim(t)
+	defer done()
+	var wg sync.WaitGroup
+	ps, err := perio.OpenServer(&wg)
+	if err != nil {
+		t.Fatal(err)
+	}
+	defer ps.Close()
+	g.ps = ps
+	if update {
+		_, err = g.UpdateURR(1, req)
+	} else {
+		err = g.CreateURR(1, req)
+	}
+	if err != nil {
+		fmt.Printf("URR call: %v\n", err)
+	}
+	kernel.reqMu.Lock()
+	defer kernel.reqMu.Unlock()
+	for _, r := range kernel.reqs {
+		b := r[16+genl.SizeofHeader:]
+		for len(b) > 0 {
+			hdr, hn, err := nl.DecodeAttrHdr(b)
+			if err != nil {
+				break
+			}
+			if hdr.MaskedType() == gtp5gnl.URR_MEASUREMENT_PERIOD && int(hdr.Len)-hn >= 4 {
+				return demoNative.Uint32(b[hn:]), true
+			}
+			b = b[hdr.Len.Align():]
+		}
+	}
+	return 0, false
+}
+
+func verifPerioAfterUpdate(t *testing.T) int {
+	g, _, done := verifSim(t)
+	defer done()
+	var wg sync.WaitGroup
+	ps, err := perio.OpenServer(&wg)
+	if err != nil {
+		t.Fatal(err)
+	}
+	defer ps.Close()
+	var mu sync.Mutex
+	hits := 0
+	ps.Handle(&demoBufHandler{}, func(m map[uint64][]uint32) (map[uint64][]report.USAReport, error) {
+		mu.Lock()
+		defer mu.Unlock()
+		for _, u := range m[1] {
+			if u == 1 {
+				hits++
+			}
+		}
+		return nil, nil
+	})
+	g.ps = ps
+	if err := g.CreateURR(1, ie.NewCreateURR(ie.NewURRID(1), ie.NewMeasurementMethod(0, 1, 0), ie.NewReportingTriggers(0x02, 0, 0))); err != nil {
+		fmt.Printf("CreateURR: %v\n", err)
+	}
+	if _, err := g.UpdateURR(1, ie.NewUpdateURR(ie.NewURRID(1), ie.NewReportingTriggers(0x01, 0, 0), ie.NewMeasurementPeriod(time.Second))); err != nil {
+		fmt.Printf("UpdateURR: %v\n", err)
+	}
+	time.Sleep(2500 * time.Millisecond)
+	mu.Lock()
+	defer mu.Unlock()
+	return hits
 }
 
 // verifBARDelay runs Create/Update BAR against the simulated kernel and returns the delay attribute of the request.
